@@ -68,12 +68,14 @@ Record st := mkst {
   firstPass : bool;
   numTF : Z;
   timer : bool;               (* a happy-eyeballs timer is scheduled and not cancelled *)
-  sticky : bool               (* ghost: TF was published by the end of a pass and nothing but TF has
+  sticky : bool;              (* ghost: TF was published by the end of a pass and nothing but TF has
                                  been published since, nor an empty address list received *)
+  midstart : bool             (* ghost: the last startFirstPassLocked found the cursor not at the first
+                                 address (before 5362b94: ExitIdle after the cursor moved while IDLE) *)
 }.
 
 Definition dummy_sd : sdr := mksd (-1) IDLE IDLE false false.
-Definition init : st := mkst CONNECTING [] (fun _ => dummy_sd) O [] O false 0 false false.
+Definition init : st := mkst CONNECTING [] (fun _ => dummy_sd) O [] O false 0 false false false.
 
 Definition zn (n : nat) : Z := Z.of_nat n.
 Definition evU (s sc : Z) : word := [1; s; sc].
@@ -84,19 +86,21 @@ Definition evS (sc : nat) : word := [14; zn sc].
 Definition valid_addr (a : Z) : bool := (0 <=? a) && (a <? 3000) && (a mod 1000 <? 256).
 
 Definition set_bstate (s : st) (v : Z) (k : bool) : st :=
-  mkst v (subs s) (sds s) (nsc s) (addrs s) (idx s) (firstPass s) (numTF s) (timer s) k.
+  mkst v (subs s) (sds s) (nsc s) (addrs s) (idx s) (firstPass s) (numTF s) (timer s) k (midstart s).
 Definition set_subs (s : st) (l : list nat) : st :=
-  mkst (bstate s) l (sds s) (nsc s) (addrs s) (idx s) (firstPass s) (numTF s) (timer s) (sticky s).
+  mkst (bstate s) l (sds s) (nsc s) (addrs s) (idx s) (firstPass s) (numTF s) (timer s) (sticky s) (midstart s).
 Definition set_sds (s : st) (f : nat -> sdr) (n : nat) : st :=
-  mkst (bstate s) (subs s) f n (addrs s) (idx s) (firstPass s) (numTF s) (timer s) (sticky s).
+  mkst (bstate s) (subs s) f n (addrs s) (idx s) (firstPass s) (numTF s) (timer s) (sticky s) (midstart s).
 Definition set_list (s : st) (l : list Z) (i : nat) : st :=
-  mkst (bstate s) (subs s) (sds s) (nsc s) l i (firstPass s) (numTF s) (timer s) (sticky s).
+  mkst (bstate s) (subs s) (sds s) (nsc s) l i (firstPass s) (numTF s) (timer s) (sticky s) (midstart s).
 Definition set_pass (s : st) (fp : bool) (n : Z) : st :=
-  mkst (bstate s) (subs s) (sds s) (nsc s) (addrs s) (idx s) fp n (timer s) (sticky s).
+  mkst (bstate s) (subs s) (sds s) (nsc s) (addrs s) (idx s) fp n (timer s) (sticky s) (midstart s).
 Definition set_timer (s : st) (t : bool) : st :=
-  mkst (bstate s) (subs s) (sds s) (nsc s) (addrs s) (idx s) (firstPass s) (numTF s) t (sticky s).
+  mkst (bstate s) (subs s) (sds s) (nsc s) (addrs s) (idx s) (firstPass s) (numTF s) t (sticky s) (midstart s).
 Definition set_sticky (s : st) (k : bool) : st :=
-  mkst (bstate s) (subs s) (sds s) (nsc s) (addrs s) (idx s) (firstPass s) (numTF s) (timer s) k.
+  mkst (bstate s) (subs s) (sds s) (nsc s) (addrs s) (idx s) (firstPass s) (numTF s) (timer s) k (midstart s).
+Definition set_mid (s : st) (m : bool) : st :=
+  mkst (bstate s) (subs s) (sds s) (nsc s) (addrs s) (idx s) (firstPass s) (numTF s) (timer s) (sticky s) m.
 
 Definition fupd {A} (f : nat -> A) (n : nat) (g : A -> A) : nat -> A :=
   fun x => if Nat.eqb x n then g (f x) else f x.
@@ -188,7 +192,7 @@ Definition request_connection (s : st) : st * list word :=
 
 (* startFirstPassLocked *)
 Definition start_first_pass (s : st) : st * list word :=
-  let s1 := set_pass s true 0 in
+  let s1 := set_mid (set_pass s true 0) (negb (Nat.eqb (idx s) O)) in
   let s2 := set_sds s1 (fun x => if existsb (Nat.eqb x) (subs s1) then d_set_failed false (sds s1 x) else sds s1 x) (nsc s1) in
   request_connection s2.
 
@@ -291,7 +295,8 @@ Definition timer_fire (s : st) : st * list word :=
 Definition exit_idle (s : st) : st * list word :=
   if bstate s =? IDLE then
     let '(s1, e1) := update_state s CONNECTING (-1) in
-    let '(s2, e2) := start_first_pass s1 in (s2, e1 ++ e2)
+    (* b.addressList.reset() (5362b94): the pass starts at the first address *)
+    let '(s2, e2) := start_first_pass (set_list s1 (addrs s1) O) in (s2, e1 ++ e2)
   else (s, []).
 
 Definition sc_of (s : st) (z : Z) : option nat :=
@@ -352,17 +357,21 @@ Definition ready_ok (s : st) (op : word) (chunk : list word) : bool :=
     | _ => false
     end) (u_events chunk).
 
-(* clause 3 (TF after all failed): if after the operation the address list is exhausted and
-   every active sub-channel's latest state is TRANSIENT_FAILURE, while before the operation
-   the pass was still running, TRANSIENT_FAILURE is published in this operation *)
+(* clause 3 (TF after all failed, the end of a pass): a first pass ends (firstPass true before
+   the operation, false after it: the list is exhausted and every sub-channel is marked as
+   failed) only by publishing TRANSIENT_FAILURE in that operation.
+   clause 5 (no silent all-failed state): a running pass is never left with the list exhausted
+   and every active sub-channel's latest state TRANSIENT_FAILURE unless TRANSIENT_FAILURE is
+   published in that operation.  (Before 5362b94 ExitIdle could start a pass with the cursor
+   not at the first address, the ghost flag midstart; such a pass never ended.) *)
 Definition all_failed (s : st) : bool :=
   negb (al_valid s) && negb (match subs s with [] => true | _ => false end) &&
   forallb (fun sc => d_raw (sds s sc) =? TF) (subs s).
-Definition pass_running (s : st) : bool :=
-  firstPass s && negb (bstate s =? READY) && negb (bstate s =? IDLE).
+Definition tf_published (chunk : list word) : bool := existsb (fun u => fst u =? TF) (u_events chunk).
 Definition tf_ok (s s' : st) (chunk : list word) : bool :=
-  negb (all_failed s' && (firstPass s' || pass_running s)) ||
-  existsb (fun u => fst u =? TF) (u_events chunk).
+  negb (firstPass s && negb (firstPass s')) || tf_published chunk.
+Definition stuck_ok (s' : st) (chunk : list word) : bool :=
+  negb (all_failed s' && firstPass s') || tf_published chunk.
 
 (* clause 4 (sticky TF): while TF published at the end of a pass over a non-empty list stands -
    nothing else published since, no empty address list since, and no active sub-channel whose
@@ -415,7 +424,8 @@ Definition clause_op (s : st) (op : word) (chunk : list word) (i : Z) : list (Z 
   [ (1, i, ready_ok s op chunk);
     (2, i, order_ok s s' op chunk);
     (3, i, tf_ok s s' chunk);
-    (4, i, sticky_ok s op chunk) ].
+    (4, i, sticky_ok s op chunk);
+    (5, i, stuck_ok s' chunk) ].
 
 Fixpoint split_chunk (obs : list word) : option (list word * list word) :=
   match obs with
@@ -441,9 +451,9 @@ Definition clauses (ops obs : list word) : list (Z * Z * bool) := clauses_from i
 
 Definition holds_b (ops obs : list word) : bool := forallb (fun c => snd c) (clauses ops obs).
 
-(* clauses 1 and 4 (the ones covered by the bridge theorem) *)
-Definition holds_1_4 (ops obs : list word) : bool :=
-  forallb (fun c => (fst (fst c) =? 2) || (fst (fst c) =? 3) || snd c) (clauses ops obs).
+(* every clause but 5 (evaluated on every trace, not proved of the model) *)
+Definition holds_proved (ops obs : list word) : bool :=
+  forallb (fun c => (fst (fst c) =? 5) || snd c) (clauses ops obs).
 
 Definition check_case (c : case) : verdict :=
   decide (run (c_ops c)) (c_obs c) (clauses (c_ops c) (c_obs c)).
